@@ -45,7 +45,7 @@ func c16List(tier string) []c16Case {
 		out = append(out, c16Case{Family: "redial", Index: i, GMP: []int{1, 4, 16}[i%3]})
 	}
 	for i := 0; i < tierN(tier, 12, 120); i++ {
-		out = append(out, c16Case{Family: "refail", Index: i, Rewrite: []string{"reattach-then-old-fails", "write-fault-while-serve-loop-busy", "read-fault-while-serve-loop-busy"}[i%3], GMP: []int{1, 4, 16}[i%3]})
+		out = append(out, c16Case{Family: "refail", Index: i, Rewrite: []string{"reattach-then-old-fails", "write-fault-while-serve-loop-busy", "read-fault-while-serve-loop-busy", "reattach-while-old-stays-open", "write-only-fault-reported-while-serve-loop-busy"}[i%5], GMP: []int{1, 4, 16}[i%3]})
 	}
 	for i := 0; i < tierN(tier, 10, 100); i++ {
 		out = append(out, c16Case{Family: "burst-stream", Index: i})
@@ -107,6 +107,18 @@ func c16Run(tier string, seed int64, idx int) *core.Result {
 func c16Refail(tier string, seed int64, idx int, c c16Case, res *core.Result) {
 	setGMP(c.GMP)
 	h := bed.NewHooks()
+	reportGo := make(chan struct{})
+	reportParked := make(chan struct{}, 4)
+	if c.Rewrite == "write-only-fault-reported-while-serve-loop-busy" {
+		// the peer loop that noticed the failure gets to report it only once the serve loop is busy
+		h.On("proxy.report", func(uint64) {
+			select {
+			case reportParked <- struct{}{}:
+			default:
+			}
+			<-reportGo
+		})
+	}
 	h.Install()
 	ctx, cancel := context.WithCancel(context.Background())
 	defer cancel()
@@ -155,6 +167,25 @@ func c16Refail(tier string, seed int64, idx int, c c16Case, res *core.Result) {
 		return st == "ok"
 	}
 	switch c.Rewrite {
+	case "reattach-while-old-stays-open":
+		px.AddClient("b", b0.link.B)
+		send("b", 1)
+		if !arrives(func() *c16Peer { return b0 }, 0, "first envelope to b") {
+			break
+		}
+		b1 := mk("b")
+		px.AddClient("b", b1.link.B) // b re-attaches; its earlier connection is still open
+		quiet(tier)
+		for n := 2; n < 8; n++ {
+			before := count(b1)
+			send("b", n)
+			if !arrives(func() *c16Peer { return b1 }, before, fmt.Sprintf("envelope %d to the re-attached b (old connection still open)", n)) {
+				break
+			}
+		}
+		if k := count(b0); k != 1 {
+			res.Violate("envelope-delivered-to-stale-connection", "after b re-attached, %d envelopes addressed to b were written to its earlier connection", k-1)
+		}
 	case "reattach-then-old-fails":
 		px.AddClient("b", b0.link.B)
 		send("b", 1)
@@ -187,9 +218,17 @@ func c16Refail(tier string, seed int64, idx int, c c16Case, res *core.Result) {
 		mu.Lock()
 		d0 := dialled[0]
 		mu.Unlock()
+		if c.Rewrite == "write-only-fault-reported-while-serve-loop-busy" {
+			// only the write side fails (the read side stays idle), on the next envelope for d
+			d0.link.B.FailWrite()
+			send("d", 2)
+			settle(tier, func() bool { return len(reportParked) > 0 })
+		}
 		go a0.link.A.Write(ctx, &wire.Rpc{Id: 900, Header: &goatorepo.RequestHeader{Method: "/x/y", Source: "a0", Destination: "hold"}})
 		settle(tier, func() bool { return gates.Reached("serve-loop") })
-		if c.Rewrite == "write-fault-while-serve-loop-busy" {
+		if c.Rewrite == "write-only-fault-reported-while-serve-loop-busy" {
+			close(reportGo)
+		} else if c.Rewrite == "write-fault-while-serve-loop-busy" {
 			d0.link.B.FailWrite()
 			d0.link.B.FailRead()
 		} else {
@@ -199,7 +238,7 @@ func c16Refail(tier string, seed int64, idx int, c c16Case, res *core.Result) {
 		gates.Open("serve-loop")
 		quiet(tier)
 		// the failed connection must be gone: the next envelopes go to a fresh dial
-		for n := 2; n < 5; n++ {
+		for n := 3; n < 6; n++ {
 			send("d", n)
 			quiet(tier)
 		}
